@@ -30,6 +30,7 @@ def handle (j : Json) : M Json := do
   | "dhar_batch" => opDharBatch j
   | "elements" => opElements j
   | "rt" => opRt j
+  | "txt_fields" => opTxtFields j
   | "bounds" => opBounds j
   | "closed" => opClosed j
   | "parking" => opParking j
